@@ -251,8 +251,9 @@ PROPS = {
     "C13": {
         "harnesses": ["me"], "lake_targets": ["GcpVerif"],
         "theorems": me_thms(["c13_mem_holds", "c13_mem_init", "c13_unavail_excluded_holds", "c13_noavail_holds", "c13_empty_holds", "reach_inv"]) +
-                    [("GcpVerif.Proofs.ME2", "GcpVerif.ME." + n) for n in ["c13_switch_top_holds", "c13_d0_holds", "reach_J", "reach_K", "nextCur_d0", "nextCur_idem"]],
-        "leanchecker": ["GcpVerif.Proofs.ME", "GcpVerif.Proofs.ME2"],
+                    [("GcpVerif.Proofs.ME2", "GcpVerif.ME." + n) for n in ["c13_switch_top_holds", "c13_d0_holds", "reach_J", "reach_K", "nextCur_d0", "nextCur_idem"]] +
+                    [("GcpVerif.Proofs.ME6", "GcpVerif.ME." + n) for n in ["status_matches_reports", "status_matches_reports_run", "reach_sinv", "fire_av"]],
+        "leanchecker": ["GcpVerif.Proofs.ME", "GcpVerif.Proofs.ME2", "GcpVerif.Proofs.ME6"],
         "trusted_base": ME_TB,
         "assumptions": ["0 <= RecoveryTimeout and 0 <= SwitchingDelay (negative durations are covered by the correspondence only)"],
     },
